@@ -256,6 +256,99 @@ impl H {
     }
 }
 
+/// rebuild `h` with its n-th child (in `for_children` order) replaced
+pub fn replace_nth_child(h: &H, n: usize, new: &H) -> H {
+    // rebuild `h` with its n-th child (in for_children order) replaced
+    let mut i = 0usize;
+    let mut take = |c: &H| -> H {
+        let r = if i == n { new.clone() } else { c.clone() };
+        i += 1;
+        r
+    };
+    match h {
+        H::List(xs) => H::List(xs.iter().map(|x| take(x)).collect()),
+        H::Rec(es) => H::Rec(
+            es.iter()
+                .map(|(k, v)| match k {
+                    Key::Dyn(e) => {
+                        let ke = take(e);
+                        let ve = take(v);
+                        (Key::Dyn(Box::new(ke)), ve)
+                    }
+                    Key::Spread(e) => (Key::Spread(Box::new(take(e))), H::Null),
+                    Key::Static(s) => (Key::Static(s.clone()), take(v)),
+                    Key::Short(s) => (Key::Short(s.clone()), H::Null),
+                })
+                .collect(),
+        ),
+        H::Lam(a, b) => H::Lam(a.clone(), Box::new(take(b))),
+        H::Cond(a, b, c) => {
+            let (x, y, z) = (take(a), take(b), take(c));
+            H::Cond(Box::new(x), Box::new(y), Box::new(z))
+        }
+        H::Do(ss, r) => {
+            let s2: Vec<H> = ss.iter().map(|s| take(s)).collect();
+            H::Do(s2, Box::new(take(r)))
+        }
+        H::Assign(n2, v) => H::Assign(n2.clone(), Box::new(take(v))),
+        H::Output(v) => H::Output(Box::new(take(v))),
+        H::Un(u, v) => H::Un(*u, Box::new(take(v))),
+        H::Fact(v) => H::Fact(Box::new(take(v))),
+        H::Spread(v) => H::Spread(Box::new(take(v))),
+        H::Field(v, f) => H::Field(Box::new(take(v)), f.clone()),
+        H::Call(g, a) => {
+            let g2 = take(g);
+            H::Call(Box::new(g2), a.iter().map(|x| take(x)).collect())
+        }
+        H::Index(a, b) => {
+            let (x, y) = (take(a), take(b));
+            H::Index(Box::new(x), Box::new(y))
+        }
+        H::Bin(o, a, b) => {
+            let (x, y) = (take(a), take(b));
+            H::Bin(*o, Box::new(x), Box::new(y))
+        }
+        other => other.clone(),
+    }
+}
+
+
+/// child positions (in `for_children` order) whose evaluation is unconditional and happens in the
+/// same scope as the parent (no lambda body, do-block, assignment or conditional branch)
+pub fn strict_child_positions(h: &H) -> Vec<usize> {
+    match h {
+        H::List(xs) => (0..xs.len()).filter(|i| !matches!(xs[*i], H::Spread(_))).collect(),
+        H::Rec(es) => {
+            let mut v = Vec::new();
+            let mut i = 0;
+            for (k, _) in es {
+                match k {
+                    Key::Dyn(_) => {
+                        v.push(i);
+                        v.push(i + 1);
+                        i += 2;
+                    }
+                    Key::Spread(_) => {
+                        v.push(i);
+                        i += 1;
+                    }
+                    Key::Static(_) => {
+                        v.push(i);
+                        i += 1;
+                    }
+                    Key::Short(_) => {}
+                }
+            }
+            v
+        }
+        H::Cond(..) => vec![0],
+        H::Call(_, a) => (0..=a.len()).filter(|i| *i == 0 || !matches!(a[*i - 1], H::Spread(_))).collect(),
+        H::Index(..) | H::Bin(..) => vec![0, 1],
+        H::Un(..) | H::Fact(_) | H::Field(..) | H::Spread(_) => vec![0],
+        _ => vec![],
+    }
+}
+
 // ------------------------------------------------------------------------------------------------
 // Printers
 
